@@ -82,7 +82,15 @@ class CS:
         return self._h
 
     def __contains__(self, c):
-        return any(a <= c < b for a, b in self.iv)
+        iv = self.iv
+        lo, hi = 0, len(iv)
+        while lo < hi:
+            mid = (lo + hi) // 2
+            if iv[mid][1] <= c:
+                lo = mid + 1
+            else:
+                hi = mid
+        return lo < len(iv) and iv[lo][0] <= c
 
     def __le__(self, o):
         return not (self - o)
@@ -140,23 +148,64 @@ def category(cat):
     raise Unsupported(f'category {cat}')
 
 
+_FOLD_CLASSES = None
+
+
+def fold_classes():
+    """Equivalence classes (size > 1) of code points under sre's IGNORECASE for str patterns: equal simple lower-case
+    mapping, joined through re._casefix._EXTRA_CASES.  Tables of the interpreter, not of soupsieve."""
+    global _FOLD_CLASSES
+    if _FOLD_CLASSES is None:
+        try:
+            from re._casefix import _EXTRA_CASES
+        except ImportError:  # pragma: no cover
+            _EXTRA_CASES = {}
+        parent = {}
+
+        def find(x):
+            while parent.get(x, x) != x:
+                parent[x] = parent.get(parent[x], parent[x])
+                x = parent[x]
+            return x
+
+        def union(a, b):
+            ra, rb = find(a), find(b)
+            if ra != rb:
+                parent[ra] = rb
+        for c in range(MAXCP):
+            ch = chr(c)
+            lo = ch.lower()
+            if lo != ch and lo:
+                union(c, ord(lo[0]))
+        for k, extras in _EXTRA_CASES.items():
+            for e in extras:
+                union(k, e)
+        groups = {}
+        for c in list(parent):
+            groups.setdefault(find(c), set()).add(c)
+        for r, g in groups.items():
+            g.add(r)
+        _FOLD_CLASSES = [frozenset(g) for g in groups.values() if len(g) > 1]
+    return _FOLD_CLASSES
+
+
+_fold_memo: dict = {}
+
+
 def casefold_set(cs: CS) -> CS:
-    """Close a set under sre's IGNORECASE for the characters this repository uses: ASCII case swap plus the two
-    non-ASCII characters that fold onto ASCII letters (U+212A KELVIN -> k, U+017F LONG S -> s)."""
+    """Close a set under sre's IGNORECASE (str patterns)."""
+    hit = _fold_memo.get(cs)
+    if hit is None:
+        hit = _fold_memo[cs] = _casefold_set(cs)
+    return hit
+
+
+def _casefold_set(cs: CS) -> CS:
     extra = []
-    for a, b in cs.iv:
-        lo, hi = max(a, 0x41), min(b, 0x5b)
-        if lo < hi:
-            extra.append((lo + 32, hi + 32))
-        lo, hi = max(a, 0x61), min(b, 0x7b)
-        if lo < hi:
-            extra.append((lo - 32, hi - 32))
-    out = cs | CS.norm(extra)
-    if ord('k') in out or 0x212a in out:
-        out = out | CS.of(ord('k'), ord('K'), 0x212a)
-    if ord('s') in out or 0x17f in out:
-        out = out | CS.of(ord('s'), ord('S'), 0x17f)
-    return out
+    for g in fold_classes():
+        if any(c in cs for c in g):
+            extra.extend((c, c + 1) for c in g)
+    return cs | CS.norm(extra) if extra else cs
 
 
 # ------------------------------------------------------------------------------------------ eps-NFA
@@ -836,6 +885,30 @@ class Aut:
                     prev[tgt] = (v, a)
                     dq.append(tgt)
         return None
+
+    def enumerate_words(self, max_words=64, max_atom=8):
+        """All words of a finite language (None if infinite, too large, or an atom is too wide)."""
+        self.sys.freeze()
+        if self.longest_run(frozenset()) is None:
+            return None
+        out = set()
+        stack = [(self.init(), '')]
+        while stack:
+            S, w = stack.pop()
+            if self.accepts_at_end(S):
+                out.add(w)
+                if len(out) > max_words:
+                    return None
+            for a in range(self.sys.nat):
+                T = self.step(S, a)
+                if T:
+                    at = self.sys.atoms[a]
+                    if at.size() > max_atom:
+                        return None
+                    for lo, hi in at.iv:
+                        for c in range(lo, hi):
+                            stack.append((T, w + chr(c)))
+        return out
 
     # ---- longest word (None = unbounded) over a set of atoms (e.g. digits) --------------------------------
     def longest_run(self, atoms_of_interest: frozenset, cap=200000):
